@@ -43,8 +43,8 @@ pub fn plan(p: &EpParams) -> Plan {
         3_000
     });
     let rule = match profile_of(p) {
-        Profile::C01 => "CONC profile c01: 1-2 topics, 2-3 subscriptions on the main topic (two always present), 2-4 publishers (batches 1-5), 2-4 consumers mixing Pull(1/3/100, blocking or not) and StreamingPull, ack/nack/modify of random subsets (also by other clients), leases left to expire, a second subscription and a second topic created and deleted mid-stream (fresh names), every 4th episode a burst of 20-40 simultaneous publishes; after the clients finish all leases expire (11 virtual minutes) and every live subscription is drained, so loss/duplication accounting is exact. Non-trivial: >=1 obligation (publish, message, subscription) with >=2 subscriptions on the topic and >=1 redelivery. Distinct: per-client operation-kind sequence x outcome classes.",
-        Profile::C03 => "CONC profile c03: one subscription, 3-8 competing consumers of mixed kinds (unary pulls with limits 1..100, blocking pulls, streams), publishers, ackers, nackers, modifiers (3 s / 15 s / 30 s) and time advances that let some leases expire while others were extended. Non-trivial: >=2 consumers received from the subscription and >=1 message was delivered >=2 times. Distinct: multiset of (consumer kind, batch limit) x lease-end causes seen.",
+        Profile::C01 => "CONC profile c01: 1-2 topics, 2-3 subscriptions on the main topic (two always present), 2-4 publishers (batches 1-5), 2-4 consumers mixing Pull(1/3/100, blocking or not) and StreamingPull, ack/nack/modify of random subsets (also by other clients), consumers that abandon their pull mid-request, leases left to expire, a second subscription and a second topic created and deleted mid-stream (fresh names), every 4th episode a burst of 20-40 simultaneous publishes; after the clients finish all leases expire (11 virtual minutes) and every live subscription is drained, so loss/duplication accounting is exact. Non-trivial: >=1 obligation (publish, message, subscription) with >=2 subscriptions on the topic and >=1 redelivery. Distinct: per-client operation-kind sequence x outcome classes.",
+        Profile::C03 => "CONC profile c03: one subscription, 3-8 competing consumers of mixed kinds (unary pulls with limits 1..100, blocking pulls, streams), publishers, ackers, nackers, modifiers (3 s / 15 s / 30 s), consumers that abandon their pull mid-request, and time advances that let some leases expire while others were extended. Non-trivial: >=2 consumers received from the subscription and >=1 message was delivered >=2 times. Distinct: multiset of (consumer kind, batch limit) x lease-end causes seen.",
         Profile::C08 => "CONC profile c08: 2-6 concurrent publishers with batches 1-8 on one topic with 2-3 subscriptions, each read by 1-3 consumers with small batch limits (no cancelled consumers, so every hand-out is observed), subscription mailboxes saturated by concurrent pulls so that posts have to wait, nacks and expiries interleaved. Non-trivial: >=2 publishes overlapped on the topic. Distinct: (publisher count, batch sizes, consumer count) x overlap pattern.",
     };
     Plan { episodes: n, exhaustive: false, rule: rule.into() }
@@ -205,6 +205,27 @@ async fn streamer(cx: Cx, sub: String, rounds: u64, mut rng: Rng, pool: Arc<Pool
     h.close_request_side();
     tokio::time::sleep(Duration::from_millis(if mt { 5 } else { 50 })).await;
     drop(h);
+}
+
+/// A consumer that goes away mid-request: its pull is dropped after a few scheduler turns.
+/// Whatever was handed to it is never observed (the lease checker only reasons about
+/// observed deliveries) and must come back after its deadline.
+async fn abandoner(cx: Cx, sub: String, n: u64, mut rng: Rng, mt: bool) {
+    for _ in 0..n {
+        jitter(&mut rng, mt).await;
+        let c2 = cx.clone();
+        let s2 = sub.clone();
+        let max = 1 + rng.below(3) as i32;
+        let blocking = rng.chance(1, 3);
+        let task = tokio::spawn(async move {
+            let _ = c2.pull(&s2, max, !blocking).await;
+        });
+        for _ in 0..rng.below(5) {
+            tokio::task::yield_now().await;
+        }
+        task.abort();
+        let _ = task.await;
+    }
 }
 
 async fn meddler(cx: Cx, sub: String, n: u64, mut rng: Rng, pool: Arc<Pool>, mt: bool, allow_modify: bool) {
@@ -374,6 +395,10 @@ async fn episode(p: &EpParams, mt: bool) -> EpReport {
                     shape.push(format!("pull{}b{}", n, blocking_p));
                 }
             }
+        }
+        if prof != Profile::C08 && rng.chance(1, 2) {
+            tasks.push(tokio::spawn(abandoner(mk(&w), s.clone(), rng.range(1, 5), rng.fork(10), mt)));
+            shape.push("abandon".into());
         }
         if prof != Profile::C08 || rng.chance(1, 2) {
             tasks.push(tokio::spawn(meddler(mk(&w), s.clone(), rng.range(2, 8), rng.fork(6), Arc::clone(&pool), mt, allow_modify)));
